@@ -285,4 +285,22 @@ theorem listItemProducer_ok {Q : ANode → Prop} (e : Env) (r : Rec) (hr : RecOK
       exact Post.pure (hok.2 hk (by simpa using he))
   · exact Post.rejected _
 
+theorem verb_inner_carries' (e : Env) (k : Kind) (cs : List ANode) (a : Attrs) (hd : a.disabled = true)
+    (hx : k.isExpr = true ∨ k = .destructuring) :
+    Carries (e.verbNode (.inner k cs a)) (specAll (.inner k cs a)) := by
+  have hv : isVerbatimNode k cs a = true := by
+    rcases hx with hx | hx
+    · simp [isVerbatimNode, hd, hx]
+    · simp [isVerbatimNode, hd, hx]
+  refine (Carries.mkText e.wd .verbatim _).congr ?_
+  apply Streams.ext' <;>
+    simp [specAll, specToks, specCmts, specProse, specLit, specVerb, hv, tagS, Pretty.charsOf, ANode.intoText, Pretty.keepOf]
+
+theorem verb_inner_carries (e : Env) (k : Kind) (cs : List ANode) (a : Attrs) (hd : a.disabled = true) (hx : k.isExpr = true) :
+    Carries (e.verbNode (.inner k cs a)) (specAll (.inner k cs a)) := by
+  have hv : isVerbatimNode k cs a = true := by simp [isVerbatimNode, hd, hx]
+  refine (Carries.mkText e.wd .verbatim _).congr ?_
+  apply Streams.ext' <;>
+    simp [specAll, specToks, specCmts, specProse, specLit, specVerb, hv, tagS, Pretty.charsOf, ANode.intoText, Pretty.keepOf]
+
 end Typstyle
